@@ -17,7 +17,7 @@ class FnContract:
     def __init__(self, cset, key, file=None, qualname=None, params=None, requires=(), ensures=(), raises=None,
                  ensures_exc=(), modifies=(), loops=None, external=False, model=None, inline=False, result=None,
                  is_property=False, setter=False, note=None, lets=None, await_havoc=None, trusted_reason=None,
-                 pure=False, emits=None, opaque_calls=(), findings=(), no_inv=False, defs=(), bounded=None):
+                 pure=False, emits=None, opaque_calls=(), findings=(), no_inv=False, defs=(), bounded=None, replay_seeds=None):
         self.cset = cset
         self.key = key
         self.file = file
@@ -43,6 +43,7 @@ class FnContract:
         self.emits = emits
         self.opaque_calls = list(opaque_calls)
         self.defs = list(defs)          # definitional unfoldings of spec functions (assumed, never proved)
+        self.replay_seeds = dict(replay_seeds or {})   # param -> concrete values tried natively after the model
         self.bounded = bounded          # text of the bound if this function is only checked up to a bound
         self.no_inv = no_inv            # helper that neither assumes nor re-establishes the class invariants
         self._extracted = None
